@@ -398,7 +398,9 @@ class RadiDict:
                     c0 = route[i]
                     for ic, c in enumerate(idx):
                         if c == c0:
-                            kidx = ic; break  # found!
+                            if c != TOKEN:  # the param token in a path is plain text
+                                kidx = ic
+                            break  # found!
 
                 if kidx is None:  # not found
                     # maybe token or look_back
